@@ -100,7 +100,7 @@ def make_case(seed, i, kind=None):
     r = cm.rng(seed, "c05", i)
     if kind is None:
         # 2/10 stage-2 programs (functions and lambdas, no class / comprehension), 1/10 stage 1, the rest as before
-        kind = {0: "s2", 1: "s2", 2: "s1", 4: "u2", 5: "s3", 6: "s3"}.get(i % 10, "exec" if i % 4 != 3 else "free")
+        kind = {0: "s2", 1: "s2", 2: "s1", 4: "u2", 5: "s3", 6: "s3", 8: "u3"}.get(i % 10, "exec" if i % 4 != 3 else "free")
     if kind == "exec":
         prog = G.gen_program(r, True)
     elif kind == "s1":
@@ -114,6 +114,9 @@ def make_case(seed, i, kind=None):
         kind = "exec"
     elif kind == "u2":
         prog = to_u2(r, G.gen_program(r, True, classes=False, funcs=True, comps=False))
+        kind = "exec"
+    elif kind == "u3":
+        prog = to_u2(r, G.gen_program(r, True, classes=False, funcs=True, comps=True))
         kind = "exec"
     else:
         prog = G.gen_program(r, False)
